@@ -223,6 +223,19 @@ def c04(ctx):
                                     "arbitrary byte strings are sampled, not enumerated; only single-octet deviations from valid responses are swept exhaustively against buffer lengths"])
 
 
+def c20(ctx):
+    q = ctx.quick()
+    ctx.model("mc/MC_Snapshot.tla", "MC_Snapshot.cfg", workers=8)
+    ctx.model("mc/MC_Snapshot.tla", "MC_Snapshot_NoLock.cfg", workers=4, expect_violation="SnapshotAtomic", label="MC_Snapshot_NoLock (non-vacuity)")
+    ctx.sim("snap", 6 if q else 60, "mon/MonSnap.tla", "MonSnap.cfg", subcmd="snap", batch=3, extra_args=["--pause-us", "20"],
+            nontrivial=lambda s: s.get("events", 0) > 100, par=4)
+    ctx.write_evidence("model_checking", "model: Snapshot.tla - every interleaving of the writer's sub-steps, 2 readers' sub-steps and the clearer under the RwLock discipline (and the lock-free instance, which must fail); "
+                       "implementation: distinct concurrent runs (real tracer thread over the simulated socket + 3 reader threads + 1 clearer thread, 1200-2000 rounds each) whose call histories TLC checks for linearizability against 'rounds applied since the last clear'",
+                       assumptions=["implementation thread schedules are sampled (real threads, a hook-provided pause between the per-flow updates widens the window); only the model's schedules are exhaustive",
+                                    "events are ordered by a process-wide atomic sequence number taken before a call starts and after it returns, never by wall-clock time",
+                                    "all rounds of a run have the same shape, so 'k whole rounds applied to an empty state' is 'every count equals k'"])
+
+
 def c14(ctx):
     q = ctx.quick()
     ctx.model("mc/MC_Ext.tla", "MC_Ext.cfg", workers=12)
@@ -257,9 +270,9 @@ def c13(ctx):
                                     "for Paris datagrams outside the sampled subset the verification flag comes from the independent decoder, not from TLA"])
 
 
-PROPS = {"C04": c04, "C14": c14, "C12": c12, "C13": c13, "C02": c02, "C11": c11, "C05": c05, "C15": c15, "C19": c19, "C07": c07, "C01": c01, "C03": c03, "C06": c06, "C08": c08, "C09": c09, "C10": c10}
+PROPS = {"C20": c20, "C04": c04, "C14": c14, "C12": c12, "C13": c13, "C02": c02, "C11": c11, "C05": c05, "C15": c15, "C19": c19, "C07": c07, "C01": c01, "C03": c03, "C06": c06, "C08": c08, "C09": c09, "C10": c10}
 
-MONITOR_OF = {"C04": (LOOP, "MonLoop_C04.cfg"), "C14": (LOOP, "MonLoop_C14.cfg"), "C12": (PKT, "MonPacket_C12.cfg"), "C13": (PKT, "MonPacket_C13.cfg"), "C02": (LOOP, "MonLoop_C02.cfg"), "C11": (LOOP, "MonLoop_C11.cfg"), "C05": (STATE, "MonState_C05.cfg"), "C15": (STATE, "MonState_C15.cfg"), "C19": (STATE, "MonState_C19.cfg"), "C07": (LOOP, "MonLoop_C07.cfg"), "C01": (LOOP, "MonLoop_C01.cfg"), "C03": (LOOP, "MonLoop_C03.cfg"), "C06": (LOOP, "MonLoop_C06.cfg"),
+MONITOR_OF = {"C20": ("mon/MonSnap.tla", "MonSnap.cfg"), "C04": (LOOP, "MonLoop_C04.cfg"), "C14": (LOOP, "MonLoop_C14.cfg"), "C12": (PKT, "MonPacket_C12.cfg"), "C13": (PKT, "MonPacket_C13.cfg"), "C02": (LOOP, "MonLoop_C02.cfg"), "C11": (LOOP, "MonLoop_C11.cfg"), "C05": (STATE, "MonState_C05.cfg"), "C15": (STATE, "MonState_C15.cfg"), "C19": (STATE, "MonState_C19.cfg"), "C07": (LOOP, "MonLoop_C07.cfg"), "C01": (LOOP, "MonLoop_C01.cfg"), "C03": (LOOP, "MonLoop_C03.cfg"), "C06": (LOOP, "MonLoop_C06.cfg"),
               "C08": (LOOP, "MonLoop_C08.cfg"), "C09": (LOOP, "MonLoop_C09.cfg"), "C10": (LOOP, "MonLoop_C10.cfg")}
 
 
